@@ -160,6 +160,9 @@ func c06Norm(s string) string {
 	s = strings.ReplaceAll(s, "ssv/protocol/v2/qbft/instance.", "Q.")
 	s = strings.ReplaceAll(s, "ssv-spec/qbft.", "Q.")
 	s = strings.ReplaceAll(s, "ssv/protocol/v2/qbft.", "Q.")
+	s = strings.ReplaceAll(s, "ssv/protocol/v2/qbft/controller.", "Q.")
+	s = strings.ReplaceAll(s, "ssv/protocol/v2/ssv/runner.", "Q.")
+	s = strings.ReplaceAll(s, "ssv-spec/ssv.", "Q.")
 	s = strings.ReplaceAll(s, ", LOGGER", "")
 	s = strings.ReplaceAll(s, "LOGGER, ", "")
 	s = strings.ReplaceAll(s, "(LOGGER)", "()")
@@ -249,13 +252,20 @@ func c06Strip(n *ens.Node) *ens.Node {
 	if len(n.A) == 0 {
 		return n
 	}
-	na := make([]*ens.Node, len(n.A))
+	na := make([]*ens.Node, 0, len(n.A))
 	ch := false
-	for i, c := range n.A {
-		na[i] = c06Strip(c)
-		if na[i] != c {
+	for _, c := range n.A {
+		sc := c06Strip(c)
+		if sc != c {
 			ch = true
 		}
+		// a logger argument of a call is erased at tree level (so that depth-limited
+		// rendering cannot hide it); the receiver position (index 0 of a logger method) stays
+		if n.K == "call" && sc.K == "const" && sc.L == "LOGGER" && !strings.HasPrefix(n.L, "go.uber.org/zap.") {
+			ch = true
+			continue
+		}
+		na = append(na, sc)
 	}
 	if !ch {
 		return n
@@ -372,12 +382,20 @@ func (b *c06Builder) build(f *ssa.Function) *c06View {
 		if g != f {
 			tag = "closure:"
 		}
-		// calls whose results only feed logging are not part of the protocol
+		// calls whose results only feed logging are not part of the protocol (collected over the
+		// function and its closures: a closure inherits the facts of the place it is created at)
 		drop := map[string]bool{}
-		for _, bl := range g.Blocks {
-			for _, in := range bl.Instrs {
-				if cv, ok := in.(*ssa.Call); ok && feedsOnlyNoise(cv, 0) {
-					drop[rawOf(a.D.D(cv))] = true
+		for _, h := range funcsWithAnon(f) {
+			ha := c.E.Analyze(h)
+			for _, bl := range h.Blocks {
+				for _, in := range bl.Instrs {
+					if cv, ok := in.(*ssa.Call); ok && feedsOnlyNoise(cv, 0) {
+						n := ha.D.D(cv)
+						if h == f || len(h.Params) == 0 {
+							n = n.Subst(bind)
+						}
+						drop[c06Strip(n).String()] = true
+					}
 				}
 			}
 		}
@@ -557,7 +575,10 @@ func c06FnKey(f *ssa.Function) string {
 }
 
 func c06Compare(c *core.Ctx, name string, nf, sf *ssa.Function) {
-	const rule = "C06-R1"
+	c06CompareRule(c, "C06-R1", name, nf, sf)
+}
+
+func c06CompareRule(c *core.Ctx, rule, name string, nf, sf *ssa.Function) {
 	_, nk := c06Bind(nf)
 	_, sk := c06Bind(sf)
 	where := c.P.Pos(nf.Pos())
@@ -885,4 +906,44 @@ func c06Retention(c *core.Ctx) {
 		}
 		whoMayCall(c, rule, "instance."+w.fn, mapOf(m), nil, w.allow)
 	}
+}
+
+// siblingExplore: experimental comparison of another ported package with its
+// reference (not registered in the manifest; used to size a possible rule).
+func siblingExplore(c *core.Ctx, rule, nodePkg, specPkg string) {
+	nodeFns, specFns := map[string]*ssa.Function{}, map[string]*ssa.Function{}
+	for _, f := range c.P.SourceFuncs(nodePkg) {
+		if f.Parent() == nil && f.Synthetic == "" {
+			nodeFns[c06FnKey(f)] = f
+		}
+	}
+	for _, f := range c.P.SourceFuncs(specPkg) {
+		if f.Parent() == nil && f.Synthetic == "" {
+			specFns[c06FnKey(f)] = f
+		}
+	}
+	var names []string
+	for k := range nodeFns {
+		names = append(names, k)
+	}
+	sort.Strings(names)
+	for _, k := range names {
+		if sf := specFns[k]; sf != nil {
+			c06CompareRule(c, rule, k, nodeFns[k], sf)
+		} else {
+			c.OK(rule, "node-only|"+k, c.P.Pos(nodeFns[k].Pos()), "no sibling")
+		}
+	}
+}
+
+func init() {
+	register(&Check{
+		Prop: "X06", Pkgs: []string{"./protocol/v2/ssv/runner/...", "./protocol/v2/qbft/controller/..."},
+		Explain: "experimental sibling exploration (not a claimed check)",
+		Run: func(c *core.Ctx) {
+			siblingExplore(c, "X06-runner", ssv+"protocol/v2/ssv/runner", spec+"ssv")
+			siblingExplore(c, "X06-controller", ssv+"protocol/v2/qbft/controller", spec+"qbft")
+		},
+		Setup: func(e *ens.Engine) { qbftSetup(e); e.Expand = nil; e.MaxDepth = 0 },
+	})
 }
